@@ -44,7 +44,8 @@ class Link:
         self.frames, self.forward = frames, forward
 
     def send(self, msg, timeout=None):
-        self.frames.append({"id": msg.arbitration_id, "d": B(msg.data), "rtr": bool(msg.is_remote_frame)})
+        self.frames.append({"id": msg.arbitration_id, "d": B(msg.data), "rtr": bool(msg.is_remote_frame),
+                            "ext": bool(msg.is_extended_id)})
         self.forward(msg)
 
     def send_periodic(self, *a, **k):
@@ -112,9 +113,16 @@ def run_case(case: dict) -> dict:
         cbcount.append(0)
         for _ in range(c["ncb"]):
             pm.add_callback(lambda m, _k=k: cbcount.__setitem__(_k, cbcount[_k] + 1))
+
+        def boomcb(m, _k=k):
+            # a user callback that fails (armed by a "wait" operation, registered last: the counted ones ran)
+            if boom["k"] == _k + 1:
+                raise RuntimeError("callback failure")
+        pm.add_callback(boomcb)
         pm.subscribe()
         cmaps.append(pm)
     ev = []
+    boom = {"k": 0}
 
     def cons_proj():
         return [{"d": B(pm.data), "ts": -1 if pm.timestamp is None else pm.timestamp,
@@ -211,7 +219,17 @@ def run_case(case: dict) -> dict:
                 if not th.is_alive():
                     break
                 clock["ts"] = ts
-                pmap.transmit()          # delivered from this (second) thread while the waiter waits
+                # a failing callback of the waiting map must not cost the reader its wake-up (armed only when
+                # that map is the last subscriber of the COB-ID: the exception ends the delivery of the frame)
+                subs = pm.pdo_node.network.subscribers.get(case["pcob"], [])
+                if op.get("boom") and subs and subs[-1] == pm.on_message:
+                    boom["k"] = op["k"]
+                try:
+                    pmap.transmit()          # delivered from this (second) thread while the waiter waits
+                except RuntimeError:
+                    pass
+                finally:
+                    boom["k"] = 0
                 fed.append(ts)
             th.join(10)
             ev.append({"e": "wait", "k": op["k"], "fed": fed, "result": res.get("r", -2), "cons": cons_proj()})
